@@ -919,12 +919,15 @@ def run_sens(ctx, cfg, case, label="gen"):
         # directory labels name the perturbation of the cell (tolerant of float formatting)
         for k, (rec, centre, lims) in enumerate(entries[:: max(1, want_total // 5)]):
             path = rec.get("path") or ""
+            # only the cell's own label component (the scratch directory name may contain "a_1")
+            comps = [c for c in path.replace("\\", "/").split("/") if c]
+            label = next((c for c in reversed(comps) if not c.startswith("[")), "")
             for nm in names_id:
                 key = f"{nm}_"
-                pos = path.find(key)
+                pos = 0 if label.startswith(key) else label.find("_" + key)
                 if pos < 0:
                     continue
-                tail = path[pos + len(key):]
+                tail = label[pos + len(key) + (0 if label.startswith(key) else 1):]
                 num = ""
                 for ch in tail:
                     if ch in "0123456789.-+e":
